@@ -1042,9 +1042,11 @@ func (val Value) HasIndex(key Value) Value {
 //
 // This method will panic if the receiver is not a set, or if it is a null set.
 func (val Value) HasElement(elem Value) Value {
-	if val.IsMarked() || elem.IsMarked() {
+	if val.IsMarked() || elem.ContainsMarked() {
+		// The element is hashed in order to look it up, so marks anywhere
+		// inside it must be removed first (as Equals does for its operands).
 		val, valMarks := val.Unmark()
-		elem, elemMarks := elem.Unmark()
+		elem, elemMarks := elem.UnmarkDeep()
 		return val.HasElement(elem).WithMarks(valMarks, elemMarks)
 	}
 
